@@ -930,7 +930,7 @@ BAD_KTH = ["", "\n", "x", "c name only\n", "3\n1 : 0\n2 : 3 0\n3 : 0\n", "3\n2 :
            "c n\n2\n2 : 1 0\n\x00", "+2\n+1 : 0\n2 : +1 0\n", "2\n1:0\n2:1 0\n", "1_0\n"]
 
 
-def gen_argvs(rng, tool, tier):
+def gen_argvs(rng, tool, tier, fixed_only=False):
     """command lines in every spelling; file names refer to the standard scratch files"""
     inp = "in.cnf" if tool == "cnfshuffle" else "g.kth"
     flags = ["-q", "--quiet"] + (["-p", "-v", "-c", "--no-polarity-flips", "--no-variables-permutation", "--no-clauses-permutation"]
@@ -966,6 +966,8 @@ def gen_argvs(rng, tool, tier):
         vocab += ["--seed", "-S", "7", "-S3", "--seed=9", "-pv", "-cq", "--no-c", "--no"]
     else:
         vocab += ["xor", "2", "none", "nosuch"]
+    if fixed_only:
+        return [a for a in out if all("/" not in t or t == UNREADABLE or t.endswith("nodir/x") for t in a)]
     n_rand = 60 if tier == "quick" else 1500
     for _ in range(n_rand):
         k = rng.randint(1, 5)
@@ -1072,7 +1074,8 @@ def cases(ctx):
         out.append(build("t_shuffle", {"tool": "cnfshuffle", "argv": rng.choice(sw), "stdin": ["bytes", lat(t)], "seed": 1,
                                        "cls": "mutated-text"}))
     good = "p cnf 3 2\n1 -2 0\n2 3 0\n"
-    argvs = gen_argvs(rng, "cnfshuffle", tier)
+    # quick tier: the hand-written command lines only (the random ones are parsed in t_args)
+    argvs = gen_argvs(rng, "cnfshuffle", tier, fixed_only=(tier == "quick"))
     for a in uniq(argvs, key=tuple):
         out.append(build("t_shuffle", {"tool": "cnfshuffle", "argv": a, "stdin": ["bytes", good], "seed": 2,
                                        "files": std, "cls": ("unreadable-input" if UNREADABLE in a else "argv:" + arg_class(a))}))
@@ -1127,7 +1130,7 @@ def cases(ctx):
         t = mutate_text(rng, render_kth(rng, n, preds, rng.choice(KSTYLES)), kth=True)
         out.append(build("t_k2p", {"tool": "kthlist2pebbling", "argv": [], "stdin": ["bytes", lat(t)], "cls": "mutated-text"}))
     goodk = "3\n1 : 0\n2 : 0\n3 : 1 2 0\n"
-    for a in uniq(gen_argvs(rng, "kthlist2pebbling", tier), key=tuple):
+    for a in uniq(gen_argvs(rng, "kthlist2pebbling", tier, fixed_only=(tier == "quick")), key=tuple):
         out.append(build("t_k2p", {"tool": "kthlist2pebbling", "argv": a, "stdin": ["bytes", goodk], "files": std,
                                    "cls": ("unreadable-input" if UNREADABLE in a else "argv:" + arg_class(a))}))
     out.append(build("t_k2p", {"tool": "kthlist2pebbling", "argv": [], "stdin": ["bytes", "2\n1 : 0\n\xff"], "cls": "undecodable"}))
